@@ -111,36 +111,40 @@ Record st := {
   file : list N;          (* <tid>.dat *)
   pc : ppc;
   todo : list rec;        (* records the thread is still going to emit *)
-  done : list rec         (* ghost: records completely stored (both size updates done) *)
+  done : list rec;        (* ghost: records completely stored (both size updates done) *)
+  base : nat              (* where the running image's own ring starts in `bufs` (0 until the task exec()s) *)
 }.
 
 Definition with_pc (p : ppc) (s : st) : st :=
   {| bufs := bufs s; curr := curr s; chan := chan s; shl := shl s; wl := wl s; file := file s;
-     pc := p; todo := todo s; done := done s |}.
+     pc := p; todo := todo s; done := done s; base := base s |}.
 Definition with_bufs (b : list buf) (s : st) : st :=
   {| bufs := b; curr := curr s; chan := chan s; shl := shl s; wl := wl s; file := file s;
-     pc := pc s; todo := todo s; done := done s |}.
+     pc := pc s; todo := todo s; done := done s; base := base s |}.
 Definition with_curr (c : option nat) (s : st) : st :=
   {| bufs := bufs s; curr := c; chan := chan s; shl := shl s; wl := wl s; file := file s;
-     pc := pc s; todo := todo s; done := done s |}.
+     pc := pc s; todo := todo s; done := done s; base := base s |}.
 Definition with_chan (c : list msg) (s : st) : st :=
   {| bufs := bufs s; curr := curr s; chan := c; shl := shl s; wl := wl s; file := file s;
-     pc := pc s; todo := todo s; done := done s |}.
+     pc := pc s; todo := todo s; done := done s; base := base s |}.
 Definition with_shl (l : list nat) (s : st) : st :=
   {| bufs := bufs s; curr := curr s; chan := chan s; shl := l; wl := wl s; file := file s;
-     pc := pc s; todo := todo s; done := done s |}.
+     pc := pc s; todo := todo s; done := done s; base := base s |}.
 Definition with_wl (l : list nat) (s : st) : st :=
   {| bufs := bufs s; curr := curr s; chan := chan s; shl := shl s; wl := l; file := file s;
-     pc := pc s; todo := todo s; done := done s |}.
+     pc := pc s; todo := todo s; done := done s; base := base s |}.
 Definition with_file (f : list N) (s : st) : st :=
   {| bufs := bufs s; curr := curr s; chan := chan s; shl := shl s; wl := wl s; file := f;
-     pc := pc s; todo := todo s; done := done s |}.
+     pc := pc s; todo := todo s; done := done s; base := base s |}.
 Definition with_todo (t : list rec) (s : st) : st :=
   {| bufs := bufs s; curr := curr s; chan := chan s; shl := shl s; wl := wl s; file := file s;
-     pc := pc s; todo := t; done := done s |}.
+     pc := pc s; todo := t; done := done s; base := base s |}.
 Definition with_done (d : list rec) (s : st) : st :=
   {| bufs := bufs s; curr := curr s; chan := chan s; shl := shl s; wl := wl s; file := file s;
-     pc := pc s; todo := todo s; done := d |}.
+     pc := pc s; todo := todo s; done := d; base := base s |}.
+Definition with_base (b : nat) (s : st) : st :=
+  {| bufs := bufs s; curr := curr s; chan := chan s; shl := shl s; wl := wl s; file := file s;
+     pc := pc s; todo := todo s; done := done s; base := b |}.
 
 (* "always use first buffer available": index of the first buffer without RECORDING, or the
    length of the ring (then a fresh shm object is created, zero filled, flag 0) *)
@@ -149,6 +153,10 @@ Fixpoint find_free (l : list buf) : nat :=
   | [] => 0
   | b :: t => if f_rec (b_flag b) then S (find_free t) else 0
   end.
+
+(* the running image sees only its own shm objects: the ring from index `b` on *)
+Definition find_free_from (b : nat) (l : list buf) : nat :=
+  if b <=? length l then b + find_free (skipn b l) else length l.
 
 (* "shrink unused buffers" *)
 Definition count_written (l : list buf) : nat :=
@@ -184,7 +192,7 @@ Definition pstep (single : bool) (cap : nat) (s : st) : st :=
       | None => with_pc (PPick r) s
       end
   | PPick r =>
-      let i := find_free (bufs s) in
+      let i := find_free_from (base s) (bufs s) in
       let l := if i <? length (bufs s) then bufs s else bufs s ++ [fresh_buf] in
       with_pc (PZero r) (with_curr (Some i) (with_bufs (upd i (fun b => set_flag (or_rec (b_flag b)) b) l) s))
   | PZero r =>
@@ -239,12 +247,11 @@ Definition pstep_closed (single : bool) (cap : nat) (s : st) : st :=
   | _ => pstep single cap s
   end.
 (* exec between two hook calls: the image is replaced.  The old image's current buffer stays announced (no REC_END);
-   its other shm objects are out of reach of the new image, which gets a ring of its own: modelled by marking
-   the old free buffers busy and appending two fresh buffers.  The rest of `todo` is what the new image records. *)
-Definition busy (b : buf) : buf := set_flag (or_rec (b_flag b)) b.
+   its other shm objects are out of reach of the new image, which gets a ring of its own (new session id):
+   two fresh buffers appended, and `base` moved there.  The rest of `todo` is what the new image records. *)
 Definition xstep (s : st) : st :=
   match pc s, curr s with
-  | PIdle, Some c => with_pc (PXStart (length (bufs s)) c) (with_bufs (map busy (bufs s) ++ [fresh_buf; fresh_buf]) s)
+  | PIdle, Some c => with_pc (PXStart (length (bufs s)) c) (with_base (length (bufs s)) (with_bufs (bufs s ++ [fresh_buf; fresh_buf]) s))
   | _, _ => s
   end.
 (* mtd_dtor between two hook calls: a normal thread end sends REC_END (shmem_finish); after a finish /
@@ -320,12 +327,12 @@ Definition init (recs : list rec) : st :=
   {| bufs := [ {| b_flag := {| f_new := true; f_written := false; f_rec := true |}; b_size := 0; b_data := zero_mem |};
                fresh_buf ];
      curr := Some 0; chan := [MStart 0]; shl := []; wl := []; file := [];
-     pc := PIdle; todo := recs; done := [] |}.
+     pc := PIdle; todo := recs; done := []; base := 0 |}.
 
 (* before the thread's first hook call has set it up (mcount_prepare -> prepare_shmem_buffer) *)
 Definition init0 (recs : list rec) : st :=
   {| bufs := [fresh_buf; fresh_buf]; curr := None; chan := []; shl := []; wl := []; file := [];
-     pc := PPrepStart; todo := recs; done := [] |}.
+     pc := PPrepStart; todo := recs; done := []; base := 0 |}.
 
 (* the window between the two size updates of a record with payload *)
 Definition in_window (single : bool) (s : st) : bool :=
@@ -370,16 +377,16 @@ Fixpoint asched (closed : bool) (sched : list flab) : list lab :=
    The recorder's main thread handles the head of the pipe; a writer takes the first queued buffer of
    the tid it serves (writer_thread: per-tid, in queue order). *)
 Record thr := { h_bufs : list buf; h_curr : option nat; h_pc : ppc; h_todo : list rec; h_done : list rec;
-                h_file : list N }.
+                h_file : list N; h_base : nat }.
 Record mst := { m_thr : list thr; m_chan : list (nat * msg); m_shl : list (nat * nat); m_wl : list (nat * nat) }.
-Definition thr0 : thr := {| h_bufs := []; h_curr := None; h_pc := PDark; h_todo := []; h_done := []; h_file := [] |}.
+Definition thr0 : thr := {| h_bufs := []; h_curr := None; h_pc := PDark; h_todo := []; h_done := []; h_file := []; h_base := 0 |}.
 Definition sel {A} (t : nat) (l : list (nat * A)) : list A := map snd (filter (fun x => Nat.eqb (fst x) t) l).
 Definition proj (t : nat) (M : mst) : st :=
   let h := nth t (m_thr M) thr0 in
   {| bufs := h_bufs h; curr := h_curr h; chan := sel t (m_chan M); shl := sel t (m_shl M); wl := sel t (m_wl M);
-     file := h_file h; pc := h_pc h; todo := h_todo h; done := h_done h |}.
+     file := h_file h; pc := h_pc h; todo := h_todo h; done := h_done h; base := h_base h |}.
 Definition thr_of (s : st) : thr :=
-  {| h_bufs := bufs s; h_curr := curr s; h_pc := pc s; h_todo := todo s; h_done := done s; h_file := file s |}.
+  {| h_bufs := bufs s; h_curr := curr s; h_pc := pc s; h_todo := todo s; h_done := done s; h_file := file s; h_base := base s |}.
 Definition set_thr (t : nat) (h : thr) (M : mst) : mst :=
   {| m_thr := upd t (fun _ => h) (m_thr M); m_chan := m_chan M; m_shl := m_shl M; m_wl := m_wl M |}.
 (* a step of thread t: `f` on its own view; what it sends goes to the end of the common pipe *)
@@ -762,6 +769,8 @@ Record tcase := {
   tc_close : nat;      (* the pipe is closed (as by another thread's mcount_trace_finish) before this op; >= #ops: never *)
   tc_end : N;          (* after the last op: 0 nothing, 1 mtd_dtor after a finish / signal trigger (pipe closed),
                           2 mtd_dtor of a normal thread end (pipe open) *)
+  tc_ops2 : list op; tc_sync2 : list bool;     (* not []: after tc_ops the task exec()s an image that runs these hook
+                                                  calls (tc_kill / tc_flush then concern the second image) *)
   (* what the implementation showed *)
   tc_shl : list nat; tc_shf : list N; tc_wl : list nat; tc_file : list N }.
 
@@ -820,11 +829,25 @@ Fixpoint tie_ops_f (single : bool) (cap : nat) (i close_at : nat) (groups : list
   end.
 Definition tc_groups (tc : tcase) : list (list rec) :=
   let '(stk, rss) := ops_run [] (tc_ops tc) in
-  if tc_flush tc then rss ++ [segv_flush stk] else rss.
+  match tc_ops2 tc with
+  | [] => if tc_flush tc then rss ++ [segv_flush stk] else rss
+  | _ => rss
+  end.
+Definition tc_groups2 (tc : tcase) : list (list rec) :=
+  match tc_ops2 tc with
+  | [] => []
+  | ops2 => let '(stk, rss) := ops_run [] ops2 in if tc_flush tc then rss ++ [segv_flush stk] else rss
+  end.
 Definition tc_state (tc : tcase) : st :=
-  let s := tie_ops (tc_single tc) (tc_cap tc) 0 (tc_close tc) (tc_groups tc) (tc_sync tc) (tc_kill tc)
-                   (init0 (concat (tc_groups tc))) in
-  if (tc_end tc =? 1)%N then dstep true s else if (tc_end tc =? 2)%N then dstep false s else s.
+  let s0 := init0 (concat (tc_groups tc) ++ concat (tc_groups2 tc)) in
+  match tc_ops2 tc with
+  | [] =>
+      let s := tie_ops (tc_single tc) (tc_cap tc) 0 (tc_close tc) (tc_groups tc) (tc_sync tc) (tc_kill tc) s0 in
+      if (tc_end tc =? 1)%N then dstep true s else if (tc_end tc =? 2)%N then dstep false s else s
+  | _ =>
+      let s1 := tie_ops (tc_single tc) (tc_cap tc) 0 (tc_close tc) (tc_groups tc) (tc_sync tc) None s0 in
+      tie_ops (tc_single tc) (tc_cap tc) 0 (tc_close tc) (tc_groups2 tc) (tc_sync2 tc) (tc_kill tc) (xstep s1)
+  end.
 Definition obs (s : st) : list nat * list N * list nat * list N :=
   let s1 := drain s in
   let s2 := flush_shmem_list s1 in
@@ -837,21 +860,40 @@ Fixpoint nat_list_eqb (a b : list nat) : bool :=
   | _, _ => false
   end.
 Definition tc_state_f (tc : tcase) : st :=
-  let s := tie_ops_f (tc_single tc) (tc_cap tc) 0 (tc_close tc) (tc_groups tc) (tc_sync tc) (tc_kill tc)
-                     (init0 (concat (tc_groups tc))) in
-  if (tc_end tc =? 1)%N then dstep true s else if (tc_end tc =? 2)%N then dstep false s else s.
+  let s0 := init0 (concat (tc_groups tc) ++ concat (tc_groups2 tc)) in
+  match tc_ops2 tc with
+  | [] =>
+      let s := tie_ops_f (tc_single tc) (tc_cap tc) 0 (tc_close tc) (tc_groups tc) (tc_sync tc) (tc_kill tc) s0 in
+      if (tc_end tc =? 1)%N then dstep true s else if (tc_end tc =? 2)%N then dstep false s else s
+  | _ =>
+      let s1 := tie_ops_f (tc_single tc) (tc_cap tc) 0 (tc_close tc) (tc_groups tc) (tc_sync tc) None s0 in
+      tie_ops_f (tc_single tc) (tc_cap tc) 0 (tc_close tc) (tc_groups2 tc) (tc_sync2 tc) (tc_kill tc) (xstep s1)
+  end.
 (* model = implementation on this case *)
+Definition shl_agree (tc : tcase) (a : list nat) : bool :=
+  match tc_ops2 tc with
+  | [] => nat_list_eqb a (tc_shl tc)
+  | _ => Nat.eqb (length a) (length (tc_shl tc))     (* the second session numbers its buffers from 0 again *)
+  end.
 Definition agrees_f (tc : tcase) : bool :=
   let '(a, f, b, c) := obs (tc_state_f tc) in
-  nat_list_eqb a (tc_shl tc) && list_eqb f (tc_shf tc) && nat_list_eqb b (tc_wl tc) && list_eqb c (tc_file tc).
+  shl_agree tc a && list_eqb f (tc_shf tc) && nat_list_eqb b (tc_wl tc) && list_eqb c (tc_file tc).
 Definition agrees (tc : tcase) : bool :=
   let '(a, f, b, c) := obs (tc_state tc) in
-  nat_list_eqb a (tc_shl tc) && list_eqb f (tc_shf tc) && nat_list_eqb b (tc_wl tc) && list_eqb c (tc_file tc).
+  shl_agree tc a && list_eqb f (tc_shf tc) && nat_list_eqb b (tc_wl tc) && list_eqb c (tc_file tc).
 (* the property on the implementation's file: whole records, a prefix of the execution; after a
    crash handler that ran to completion: the whole eager trace (every open call included) *)
 Definition ok_case (tc : tcase) : bool :=
-  if tc_flush tc && (length (tc_ops tc) <=? tc_close tc) then match_recs (eager [] (tc_ops tc)) (tc_file tc)
-  else ok_prefix (eager [] (tc_ops tc)) (tc_file tc).
+  match tc_ops2 tc with
+  | [] =>
+      if tc_flush tc && (length (tc_ops tc) <=? tc_close tc) then match_recs (eager [] (tc_ops tc)) (tc_file tc)
+      else ok_prefix (eager [] (tc_ops tc)) (tc_file tc)
+  | ops2 =>
+      (* the old image ran all its hook calls (what it had written lazily stays); then the new image's trace *)
+      let old := concat (snd (ops_run [] (tc_ops tc))) in
+      if tc_flush tc then match_recs (old ++ eager [] ops2) (tc_file tc)
+      else ok_prefix (old ++ eager [] ops2) (tc_file tc) && match_recs old (firstn (length (concat (map (fun r => hdr r ++ r_pl r ++ repeat 0%N (align8 (length (r_pl r)) - length (r_pl r))) old))) (tc_file tc))
+  end.
 (* the header-before-payload window (known defect): whole records followed by one bare header *)
 Definition window_shape (tc : tcase) : bool :=
   let f := tc_file tc in
